@@ -6,6 +6,7 @@ documented meaning on the tree (Spec/PathEval.lean).
 import JsonbModel.Proofs.SelectModes
 import JsonbModel.Spec.PathEval
 import JsonbModel.Proofs.PathFuel
+import JsonbModel.Proofs.SelectRefine9
 
 namespace Jsonb.Props
 open Jsonb Sel
@@ -44,8 +45,109 @@ theorem C08_select_all_appends (jp : JsonPath) (root data : Bytes) (offs : List 
       = (select jp .all root [] [] fuel).map (fun r => (data ++ r.1, offs ++ r.2.map (· + data.length))) :=
   select_all_frame jp root data offs fuel hnp
 
+/-! ### Refinement: the byte-level selector returns exactly the items the path denotes
+
+`Ev g r` : the fuel-indexed spec evaluator `g` returns `some r` for every large enough fuel.
+`okPaths` : comparison operands that are paths start with `$` or `@` (all the parser builds).
+`suppPaths` : decidable description of the ASTs `parse_json_path` can build (steps, index lists,
+nested filters with `&&`/`||`/`exists`, comparison of operand paths and literals). -/
+
+/-- **all mode** (`get_by_path`, `select_by_path`): whenever the selector answers, the bytes it
+appended are the canonical encodings of exactly the denoted items, in document order, each
+delimited by its end offset — for every good document, path, prior buffer and fuel -/
+theorem C08_select_all_refines (v₀ : JV) (hg : JV.goodTop v₀ = true) (jp : JsonPath) (hok : okPaths jp = true)
+    (hnp : isPredicate jp = false) (fuel : Nat) (data : Bytes) (offs : List Nat) (r : Bytes × List Nat)
+    (h : select jp .all (JV.encodeSpec v₀) data offs fuel = .ok r) :
+    ∃ items, Ev (fun f => Spec.evalPaths f v₀ none jp) items ∧
+      r = (data ++ items.flatMap JV.encodeSpec, offs ++ ends data.length items) :=
+  select_all_refines v₀ hg jp hok hnp fuel data offs r h
+
+/-- … and conversely (completeness, no panic, errors only where the path has no meaning) -/
+theorem C08_select_all_exact (v₀ : JV) (hg : JV.goodTop v₀ = true) (jp : JsonPath) (hs : suppPaths jp = true)
+    (hhead : jp.head? ≠ some .current) (hnp : isPredicate jp = false) (data : Bytes) (offs : List Nat) :
+    ∃ F, ∀ fuel, F ≤ fuel →
+      (∃ items, Ev (fun f => Spec.evalPaths f v₀ none jp) items ∧
+        select jp .all (JV.encodeSpec v₀) data offs fuel
+          = .ok (data ++ items.flatMap JV.encodeSpec, offs ++ ends data.length items)) ∨
+      (∃ e, select jp .all (JV.encodeSpec v₀) data offs fuel = .err e ∧
+        ∀ f, Spec.evalPaths f v₀ none jp = none) :=
+  select_all_exact v₀ hg jp hs hhead hnp data offs
+
+theorem C08_select_all_no_panic (v₀ : JV) (hg : JV.goodTop v₀ = true) (jp : JsonPath) (hs : suppPaths jp = true)
+    (hhead : jp.head? ≠ some .current) (fuel : Nat) (data : Bytes) (offs : List Nat) (s : String) :
+    select jp .all (JV.encodeSpec v₀) data offs fuel ≠ .panic s :=
+  select_all_no_panic v₀ hg jp hs hhead fuel data offs s
+
+/-- **first mode** = the first denoted item -/
+theorem C08_select_first_refines (v₀ : JV) (hg : JV.goodTop v₀ = true) (jp : JsonPath) (hok : okPaths jp = true)
+    (hnp : isPredicate jp = false) (fuel : Nat) (data : Bytes) (offs : List Nat) (r : Bytes × List Nat)
+    (h : select jp .first (JV.encodeSpec v₀) data offs fuel = .ok r) :
+    ∃ items, Ev (fun f => Spec.evalPaths f v₀ none jp) items ∧
+      r = (data ++ (items.take 1).flatMap JV.encodeSpec, offs ++ ends data.length (items.take 1)) :=
+  select_first_refines v₀ hg jp hok hnp fuel data offs r h
+
+/-- **array mode** = one canonical array of the denoted items -/
+theorem C08_select_array_refines (v₀ : JV) (hg : JV.goodTop v₀ = true) (jp : JsonPath) (hok : okPaths jp = true)
+    (hnp : isPredicate jp = false) (hsmall : (JV.encodeSpec v₀).length < 268435456)
+    (fuel : Nat) (data : Bytes) (offs : List Nat) (r : Bytes × List Nat)
+    (h : select jp .array (JV.encodeSpec v₀) data offs fuel = .ok r) :
+    ∃ items, Ev (fun f => Spec.evalPaths f v₀ none jp) items ∧
+      (items.length < 536870912 →
+        r = (data ++ JV.encodeSpec (.arr items), offs ++ [(data ++ JV.encodeSpec (.arr items)).length])) :=
+  select_array_refines v₀ hg jp hok hnp hsmall fuel data offs r h
+
+/-- **mixed mode** = the array when more than one item, the item itself otherwise -/
+theorem C08_select_mixed_refines (v₀ : JV) (hg : JV.goodTop v₀ = true) (jp : JsonPath) (hok : okPaths jp = true)
+    (hnp : isPredicate jp = false) (hsmall : (JV.encodeSpec v₀).length < 268435456)
+    (fuel : Nat) (data : Bytes) (offs : List Nat) (r : Bytes × List Nat)
+    (h : select jp .mixed (JV.encodeSpec v₀) data offs fuel = .ok r) :
+    ∃ items, Ev (fun f => Spec.evalPaths f v₀ none jp) items ∧
+      (items.length < 536870912 →
+        r = if items.length > 1
+            then (data ++ JV.encodeSpec (.arr items), offs ++ [(data ++ JV.encodeSpec (.arr items)).length])
+            else (data ++ items.flatMap JV.encodeSpec, offs ++ ends data.length items)) :=
+  select_mixed_refines v₀ hg jp hok hnp hsmall fuel data offs r h
+
+/-- **predicate paths** give one boolean document, in every mode, and push no offset -/
+theorem C08_select_predicate_refines (v₀ : JV) (hg : JV.goodTop v₀ = true) (jp : JsonPath) (hok : okPaths jp = true)
+    (hp : isPredicate jp = true) (m : Mode) (fuel : Nat) (data : Bytes) (offs : List Nat)
+    (r : Bytes × List Nat) (h : select jp m (JV.encodeSpec v₀) data offs fuel = .ok r) :
+    ∃ items, Ev (fun f => Spec.evalPaths f v₀ none jp) items ∧
+      r = (data ++ JV.encodeSpec (.bool (!items.isEmpty)), offs) :=
+  select_predicate_refines v₀ hg jp hok hp m fuel data offs r h
+
+/-- **path_exists** / **path_match** -/
+theorem C08_exists_exact (v₀ : JV) (hg : JV.goodTop v₀ = true) (jp : JsonPath) (hs : suppPaths jp = true)
+    (hhead : jp.head? ≠ some .current) (hnp : isPredicate jp = false) :
+    ∃ F, ∀ fuel, F ≤ fuel →
+      (∃ items, Ev (fun f => Spec.evalPaths f v₀ none jp) items ∧
+        exists_ jp (JV.encodeSpec v₀) fuel = .ok (!items.isEmpty)) ∨
+      (∃ e, exists_ jp (JV.encodeSpec v₀) fuel = .err e ∧ ∀ f, Spec.evalPaths f v₀ none jp = none) :=
+  exists_exact v₀ hg jp hs hhead hnp
+theorem C08_predicate_match_exact (v₀ : JV) (hg : JV.goodTop v₀ = true) (jp : JsonPath) (hs : suppPaths jp = true)
+    (hp : isPredicate jp = true) :
+    ∃ F, ∀ fuel, F ≤ fuel →
+      (∃ items, Ev (fun f => Spec.evalPaths f v₀ none jp) items ∧
+        predicateMatch jp (JV.encodeSpec v₀) fuel = .ok (!items.isEmpty)) ∨
+      (∃ e, predicateMatch jp (JV.encodeSpec v₀) fuel = .err e ∧ ∀ f, Spec.evalPaths f v₀ none jp = none) :=
+  predicateMatch_exact v₀ hg jp hs hp
+
+/-- the evaluator always terminates: some fuel suffices, and more fuel never changes an answer -/
+theorem C08_terminates (v₀ : JV) (hg : JV.goodTop v₀ = true) (jp : JsonPath) (hs : suppPaths jp = true)
+    (hhead : jp.head? ≠ some .current) :
+    ∃ F, ∀ fuel, F ≤ fuel → findPositions fuel (JV.encodeSpec v₀) none jp ≠ .fuel := by
+  obtain ⟨F, hF⟩ := findPositions_exact v₀ hg jp hs hhead
+  refine ⟨F, fun fuel hf => ?_⟩
+  rcases hF fuel hf with ⟨ps, items, h, _⟩ | ⟨e, h, _⟩ <;> simp [h]
+
 /-- the scalar-root defect repaired in /repo: `$ > 1` on the document `5` is true -/
 example : (predicateMatch [.predicate (.binaryOp .gt (.paths [.root]) (.value (.num (.uint 1))))]
     (JV.encodeSpec (.num (.uint 5))) 50) = .ok true := by decide +kernel
+
+/-- the hypotheses are met by what the parser builds for a path with wildcards, index lists with
+`last`, nested filters, `&&`/`||`, `exists` and `$`-rooted operands -/
+example : (match parseJsonPath "$.a[*][0, last - 1, 2 to last]?(@.b > 1 && exists(@.c) || $.d == \"x\").e".toUTF8.toList with
+    | .ok jp => suppPaths jp && okPaths jp && !isPredicate jp && (match jp.head? with | some .current => false | _ => true)
+    | _ => false) = true := by decide +kernel
 
 end Jsonb.Props
